@@ -24,6 +24,10 @@ class Err(Exception):
     pass
 
 
+class NotModelled(Exception):
+    """the verdict depends on a real signature verification: outside this transcription"""
+
+
 def _minimal_push(data, opcode):
     if len(data) == 0:
         return opcode == 0
@@ -40,9 +44,14 @@ def _minimal_push(data, opcode):
     return True
 
 
-def eval_script(stack, script, minimaldata, minimalif_mode):
-    """minimalif_mode: 'never' (legacy), 'flag' handled by the caller passing True/False"""
-    if len(script) > MAX_SCRIPT_SIZE:
+OP_SUCCESS = {80, 98, 126, 127, 128, 129, 131, 132, 133, 134, 137, 138, 141, 142, 149, 150, 151, 152, 153} | set(range(187, 255))
+UPGRADABLE_NOPS = {0xB0, 0xB3, 0xB4, 0xB5, 0xB6, 0xB7, 0xB8, 0xB9}
+
+
+def eval_script(stack, script, minimaldata, minimalif_mode, tapscript=False, budget=None, flags=()):
+    """minimalif_mode: 'never' (legacy), 'flag' handled by the caller passing True/False;
+    tapscript: SigVersion::TAPSCRIPT (no script-size and op-count limits, MINIMALIF is consensus)"""
+    if not tapscript and len(script) > MAX_SCRIPT_SIZE:
         raise Err("script size")
     alt = []
     vf = []
@@ -80,7 +89,7 @@ def eval_script(stack, script, minimaldata, minimalif_mode):
             i += ln
             if len(data) > MAX_ELEM:
                 raise Err("push size")
-        if op > 0x60:
+        if op > 0x60 and not tapscript:
             nops += 1
             if nops > MAX_OPS:
                 raise Err("op count")
@@ -93,13 +102,13 @@ def eval_script(stack, script, minimaldata, minimalif_mode):
         elif fexec or (0x63 <= op <= 0x68):
             if op == 0x4F or 0x51 <= op <= 0x60:
                 stack.append(scriptnum_serialize(op - 0x50))
-            elif op == 0x61:
-                pass
+            elif op == 0x61 or op in UPGRADABLE_NOPS:
+                pass            # NOP1, NOP4..NOP10 without DISCOURAGE_UPGRADABLE_NOPS (not generated)
             elif op in (0x63, 0x64):
                 value = False
                 if fexec:
                     v = pop() if stack else (_ for _ in ()).throw(Err("unbalanced"))
-                    if minimalif_mode and v not in (b"", b"\x01"):
+                    if (minimalif_mode or tapscript) and v not in (b"", b"\x01"):
                         raise Err("minimalif")
                     value = cast_to_bool(v)
                     if op == 0x64:
@@ -241,6 +250,38 @@ def eval_script(stack, script, minimaldata, minimalif_mode):
                 else:
                     h = hashlib.sha256(hashlib.sha256(v).digest()).digest()
                 stack.append(h)
+            elif op == 0xAB:
+                pass            # OP_CODESEPARATOR: a position marker (CONST_SCRIPTCODE not generated)
+            elif tapscript and op in (0xAC, 0xAD, 0xBA):
+                # EvalChecksigTapscript without the verification itself
+                if op == 0xBA:
+                    if len(stack) < 3:
+                        raise Err("stack")
+                    sig, nn, pk = stack[-3], num(stack[-2]), stack[-1]
+                    del stack[-3:]
+                else:
+                    if len(stack) < 2:
+                        raise Err("stack")
+                    sig, pk = stack[-2], stack[-1]
+                    del stack[-2:]
+                success = len(sig) > 0
+                if success:
+                    budget[0] -= 50
+                    if budget[0] < 0:
+                        raise Err("tapscript validation weight")
+                if len(pk) == 0:
+                    raise Err("pubkeytype")
+                if len(pk) == 32:
+                    if success:
+                        raise NotModelled()
+                elif "DISCOURAGE_UPGRADABLE_PUBKEYTYPE" in flags:
+                    raise Err("discourage upgradable pubkeytype")
+                if op == 0xBA:
+                    stack.append(scriptnum_serialize(nn + (1 if success else 0)))
+                elif op == 0xAC:
+                    stack.append(b"\x01" if success else b"")
+                elif not success:
+                    raise Err("checksigverify")
             else:
                 raise Err("bad opcode")
         if len(stack) + len(alt) > MAX_STACK:
@@ -347,3 +388,50 @@ def verify_witness(wp, witness, flags):
         eval_script(stack, script, True if "MINIMALDATA" in flags else False, "MINIMALIF" in flags)
         return len(stack) == 1 and cast_to_bool(stack[-1])
     return True    # future versions: anyone can spend (no DISCOURAGE flag generated); taproot not generated
+
+
+
+def scan_op_success(script):
+    """ExecuteWitnessScript's pre-scan for tapscript: True at the first OP_SUCCESSx, Err where
+    GetOp fails before one is met, False when the script has none"""
+    i, n = 0, len(script)
+    while i < n:
+        op = script[i]
+        i += 1
+        if op in OP_SUCCESS:
+            return True
+        if op <= 0x4E:
+            if op < 0x4C:
+                ln = op
+            else:
+                w = {0x4C: 1, 0x4D: 2, 0x4E: 4}[op]
+                if i + w > n:
+                    raise Err("bad opcode")
+                ln = int.from_bytes(script[i:i + w], "little")
+                i += w
+            if i + ln > n:
+                raise Err("bad opcode")
+            i += ln
+    return False
+
+
+def verify_tapscript(stack, script, flags, witness_size=None):
+    """the leaf-version 0xc0 arm of VerifyWitnessProgram after the control block has been
+    checked: OP_SUCCESS pre-scan, initial stack limits, EvalScript(TAPSCRIPT), one true element.
+    None where the verdict needs a real signature verification"""
+    if witness_size is None:
+        from spec.codec import enc_varint
+        items = list(stack) + [script, bytes(33)]
+        witness_size = len(enc_varint(len(items))) + sum(len(enc_varint(len(x))) + len(x) for x in items)
+    try:
+        if scan_op_success(script):
+            return "DISCOURAGE_OP_SUCCESS" not in flags
+        if len(stack) > MAX_STACK or any(len(e) > MAX_ELEM for e in stack):
+            return False
+        stack = list(stack)
+        eval_script(stack, script, "MINIMALDATA" in flags, True, tapscript=True, budget=[50 + witness_size], flags=flags)
+        return len(stack) == 1 and cast_to_bool(stack[-1])
+    except Err:
+        return False
+    except NotModelled:
+        return None
